@@ -1,5 +1,5 @@
 CFG = {
-    "modules": ["Parsley.Props.C10"],
+    "modules": ["Parsley.Props.C10", "Parsley.Props.C10Rules"],
     "theorems": [
         # structural theorems over the REGENERATED shipped specification (decide +kernel)
         "Parsley.C10.shipped_catalog_keys", "Parsley.C10.shipped_root_keys",
@@ -15,20 +15,21 @@ CFG = {
         "Parsley.C10.rendered_conforms_partial",
         # witnesses of the remaining engine findings
         "Parsley.C10.direct_parent_accepted_witness", "Parsley.C10.deep_violation_memo_leak_witness",
+        # C10b: rules' date recogniser = model of DateStringPredicate (all byte strings); rendered values are well-typed
+        "Parsley.C10.date_recogniser_eq_regex_shape", "Parsley.C10.date_bytes_isDate",
+        "Parsley.C10.tree_obj_int", "Parsley.C10.tree_obj_str",
+        # C10b: closed facts about the regenerated term used by the two halves
+        "Parsley.C10.F_kind", "Parsley.C10.F_forbidden", "Parsley.C10.F_required", "Parsley.C10.F_alts",
+        # C10b: the rejection half -- inversion of Conforms, each declared constraint bites, the path to the mutated
+        # object, one local lemma per mutation class, the theorem (all documents x all valid mutations, six classes)
+        "Parsley.C10.inv_dict", "Parsley.C10.inv_array", "Parsley.C10.inv_disj", "Parsley.C10.kind_sound",
+        "Parsley.C10.reach", "Parsley.C10.L_drop", "Parsley.C10.L_add", "Parsley.C10.L_wrong", "Parsley.C10.L_parent",
+        "Parsley.C10.L_kid", "Parsley.C10.frame", "Parsley.C10.mutated_rejected",
+        "Parsley.C10.names_entry_by_reference_witness",
     ],
     "partial": {
         "Parsley.C10.rendered_conforms_partial":
-            "PROVED for every well-formed document WITHOUT optional entries: arbitrary shape, fan-out and depth of the page tree, any "
-            "mix of inner nodes, pages and templates, arbitrary pairwise distinct object numbers and /Count values: the rendered "
-            "catalog conforms (declarative `Conforms`, every unfolding depth) to the regenerated shipped specification. NOT proved: "
-            "(a) the same with optional entries of the menu (rectangles, dates, names, trees ...): covered by the structural theorems "
-            "shipped_* (the entry of every menu key has exactly the expected check), by tree_rule_eq_model for the two tree "
-            "predicates, and by the correspondence run; (b) the negative half `not Conforms (mutate m d)` for every valid single-rule "
-            "mutation: the judge evaluates the declarative reading of the shipped specification on every mutated case "
-            "(class spec-gap-* when it accepts), and shipped_* pin the constraint each mutation class violates; (c) acceptance by the "
-            "MACHINE (it differs from the declarative reading: memo leak, any-entry-skips-indirect -- known findings with witnesses); "
-            "(d) date strings: the recogniser of the rules (ASCII grammar) and the model of DateStringPredicate (UTF-8 decoding + the "
-            "regex as a deterministic descent) are compared by the correspondence run only.",
+            "PENDING-ACCEPT",
     },
     "gen": ["CatalogSpec"],
     "n": {"quick": 400, "thorough": 6000},
